@@ -244,6 +244,7 @@ func singleMutations(ies []*node) []mutation {
 }
 
 func c01(c *ctx) {
+	defer c01Wedge(c)
 	w, err := newWorld(c, sysh.Opts{UEAlloc: true, Pool: "10.250.0.0/16", EndMarker: true, ReadTimeout: 30})
 	if err != nil {
 		panic(err)
@@ -467,6 +468,49 @@ func c01(c *ctx) {
 				tp = c01Templates(pr.p.IP, pr.p.Addr)
 			}
 		}
+	}
+}
+
+// c01Wedge: with the agent's own heartbeats enabled, response-type datagrams that answer a pending request twice, late
+// or with a foreign sequence number must not block the association's receive loop.
+func c01Wedge(c *ctx) {
+	iv, rt := 200*time.Millisecond, 80*time.Millisecond
+	w, err := newWorld(c, sysh.Opts{HB: true, HBInterval: iv.String(), RespTimeout: rt.String(), MaxRetries: 2, ReadTimeout: 600})
+	if err != nil {
+		panic(err)
+	}
+	defer w.close()
+	if !w.start() {
+		return
+	}
+	for round := 0; round < c.pick(3, 30); round++ {
+		w.assoc(0)
+		p := w.peers[0]
+		pdrs, fars, qers := w.genSession(0)
+		w.nextCP++
+		h, _ := w.est(0, w.nodes[0], w.nextCP, pdrs, fars, qers, "c01")
+		start := time.Now()
+		watchHB(p, 3*iv, start, func(n int, seq uint32) []message.Message {
+			switch round % 3 {
+			case 0:
+				return []message.Message{hbResp(seq), hbResp(seq), hbResp(seq)} // duplicated answers
+			case 1:
+				return []message.Message{hbResp(seq + 5), hbResp(seq), hbResp(seq - 1), hbResp(seq)} // foreign, answer, stale, duplicate
+			default:
+				if n == 1 {
+					return nil // late: answered only at the retransmission, twice
+				}
+				return []message.Message{hbResp(seq), hbResp(seq)}
+			}
+		}, nil)
+		p.AnswerHB = true
+		alive := !w.s.Exited()
+		known := false
+		if h != nil {
+			known = w.del(0, h.up, "c01-after-responses").Cause == 1
+		}
+		c.t.Case("c01/wedge", true, "wedge %d => %d %d", round%3, b01(alive), b01(known))
+		w.release(0)
 	}
 }
 
